@@ -48,7 +48,7 @@ def scripted_id_reuse(w, origin, victim_hops):
         w.deliver(w.net.inflight[0].seq)
     for g in genuine[:1]:
         for n in w.names:
-            w.forge_destroy("adv", n, w.describe(g)["cid"], replay_seq=g.seq)
+            w.forge_destroy(w.describe(g)["signer"], n, w.describe(g)["cid"], replay_seq=g.seq)
             w.deliver(w.net.inflight[-1].seq)
             while w.net.inflight:
                 w.deliver(w.net.inflight[0].seq)
@@ -64,9 +64,9 @@ def run(tier, seed, replay=None):
                        "non-trivial = distinct executions containing an attack step or data of >= 2 circuits")
     ctx.assumptions += ["symbolic AEAD / DH (Dolev-Yao); circuit ids and identifiers renamed by allocation order",
                         "the signature check of destroy messages itself is property C01"]
-    K.spec_controls(ctx, [("Onion_c05_pinned.cfg", "EntriesStable",
-                           "spec without the circuit-id-in-use guard lets a create replace an entry (EntriesStable violated)")])
-    K.model_check(ctx, ["Onion_c05.cfg"])
+    bg = K.Background(["Onion_c05_q.cfg", "Onion_c05_g2.cfg"] + (["Onion_c05.cfg"] if tier == "thorough" else []),
+                      [("Onion_c05_pinned.cfg", "NoShadow", "spec without the circuit-id-in-use guard lets a create install an "
+                        "exit socket under a used id (NoShadow violated)")])
     base = seed * 1000
     n = 4 if tier == "quick" else 16
     steps = 220 if tier == "quick" else 500
@@ -102,6 +102,7 @@ def run(tier, seed, replay=None):
     ctx.note("id_reuse", {"runs": len(scr), "events": sum(len(t["events"]) for t in scr),
                           "forged_creates": sum(1 for t in scr for e in t["events"] if e["a"] == "AdvCreate"),
                           "forged_destroys": sum(1 for t in scr for e in t["events"] if e["a"] == "ForgeDestroy")})
+    bg.collect(ctx)
     return ctx.finish()
 
 
